@@ -574,7 +574,7 @@ def r17_4(chk, mod, data, params):
                         # ... and k is the text the caller gave, normalised and nothing else: the whole leading letter run of a label,
                         # the stripped and capitalised string (D read as H) for a symbol, its lower case for a name
                         if q == "Element.from_label":
-                            canon = {"re.match(_SYMBOL_REGEX, label).group(1).strip().capitalize()".replace("label", ev.param_names[0])}
+                            canon = {"re.match(_SYMBOL_REGEX, label).groups()[0].strip().capitalize()".replace("label", ev.param_names[0])}
                         else:
                             s0 = ev.param_names[-1]
                             K = f"{s0}.strip().capitalize()"
@@ -681,6 +681,11 @@ def r17_5(chk, mod, data):
                 anchored = True
             if n == ".group" and e.extra["args"] and e.extra["args"][0] == P.const(1):
                 group1 = True
+            if e.target is not None and e.target.key().endswith(".group") and e.extra["args"] and e.extra["args"][0] == P.const(1):
+                group1 = True           # (the evaluator writes m.group(1) as m.groups()[0])
+        if e.value is not None and (".match(" in e.value.key() or "re.match(" in e.value.key() or "fullmatch(" in e.value.key()) \
+                and ".groups()[0]" in e.value.key():
+            group1 = True
     chk.ob("R17.5", MOD, "Element.from_label", "the label is matched from its start (match/fullmatch) and group 1 is the symbol",
            anchored and group1, found=f"anchored={anchored} group1={group1}")
 
